@@ -1015,6 +1015,17 @@ pub fn run(r: &Req) -> Vec<(String, String)> {
     if r.op == "packed" {
         return crate::exec::run_packed(r);
     }
+    if r.op == "cpu" {
+        #[cfg(target_arch = "x86_64")]
+        let s = format!(
+            "avx2={} ssse3={}",
+            std::is_x86_feature_detected!("avx2") as u8,
+            std::is_x86_feature_detected!("ssse3") as u8
+        );
+        #[cfg(not(target_arch = "x86_64"))]
+        let s = "avx2=0 ssse3=0".to_string();
+        return vec![("-".into(), s)];
+    }
     let mut out = vec![];
     for c in cfgs {
         let res = catch_unwind(AssertUnwindSafe(|| -> String {
